@@ -22,7 +22,7 @@ pub const SPEC: PropSpec = PropSpec {
         "a panic anywhere inside the guarded region is attributed to quick-xml (the harness accessors themselves are panic-free by construction: no indexing, no unwrap on results)",
         "termination is checked as the logical bound on the number of calls, not by wall-clock time",
     ],
-    required: &["reader.slice", "reader.buffered", "reader.async", "nsreader.slice", "nsreader.buffered", "nsreader.async", "accessor_calls", "syntax_errors_then_eof", "illformed_errors_continued", "attr_items", "skip_calls", "stream_reads"],
+    required: &["reader.slice", "reader.buffered", "reader.async", "nsreader.slice", "nsreader.buffered", "nsreader.async", "accessor_calls", "syntax_errors_then_eof", "illformed_errors_continued", "attr_items", "skip_calls", "skip_calls_not_directly_after_start", "stream_reads"],
     run,
     replay,
     thorough_layers: &[("plain", 100), ("asan", 20), ("valgrind", 1), ("miri", 1), ("fuzz", 60)],
@@ -41,6 +41,7 @@ pub struct Local {
     max_calls_ratio_pct: u64,
     events: u64,
     skip_calls: u64,
+    skip_calls_not_after_start: u64,
     stream_reads: u64,
 }
 
@@ -422,6 +423,7 @@ pub fn drive(input: &[u8], cfg: u8, mode: Mode, cuts: &[usize], pending: &[u8], 
             let mut r = if ns { Either::N(NsReader::from_reader(input)) } else { Either::R(Reader::from_reader(input)) };
             apply_cfg(r.config_mut(), cfg);
             let mut k = 0usize;
+            let mut open: Vec<Vec<u8>> = Vec::new();
             for _ in 0..limit {
                 let res = guarded(|| r.read_event());
                 let res = match res {
@@ -429,17 +431,35 @@ pub fn drive(input: &[u8], cfg: u8, mode: Mode, cuts: &[usize], pending: &[u8], 
                     Err(p) => return Err(format!("read call {}: {}", inv.calls, p)),
                 };
                 let obs = result_obs(&res);
-                let start_name = match &res {
+                let mut start_name = match &res {
                     Ok(Event::Start(e)) => Some(e.name().as_ref().to_vec()),
                     _ => None,
                 };
+                // open elements, for skip calls that are made later than directly after the start tag
+                match &res {
+                    Ok(Event::Start(e)) => open.push(e.name().as_ref().to_vec()),
+                    Ok(Event::End(_)) => {
+                        open.pop();
+                    }
+                    _ => {}
+                }
+                let plain_event = matches!(&res, Ok(Event::Text(_)) | Ok(Event::End(_)) | Ok(Event::Empty(_)) | Ok(Event::Comment(_)) | Ok(Event::CData(_)) | Ok(Event::PI(_)));
                 drop(res);
                 if inv.step(&obs, r.buffer_position(), r.error_position(), loc)? {
                     break;
                 }
+                // ... also after a text, an end tag, ... : skip the rest of any element that is still open
+                if start_name.is_none() && plain_event && !open.is_empty() && (inv.calls as usize + cfg as usize) % 5 == 0 {
+                    let i = (inv.calls as usize + k) % open.len();
+                    start_name = Some(open[i].clone());
+                    open.truncate(i + 1);
+                    k = k.wrapping_add(2 - (k + cfg as usize) % 3); // make the trigger below fire
+                    loc.skip_calls_not_after_start += 1;
+                }
                 if let Some(name) = start_name {
                     k += 1;
                     if (k + cfg as usize) % 3 == 0 {
+                        open.pop();
                         let use_text = k % 2 == 0;
                         let cfg_before = cfg_bits(r.config());
                         let pos_before = r.buffer_position();
@@ -829,6 +849,7 @@ fn flush(ctx: &mut Ctx, loc: &Local) {
     ctx.add("attr_errors", loc.attr_errors);
     ctx.add("events_exercised", loc.events);
     ctx.add("skip_calls", loc.skip_calls);
+    ctx.add("skip_calls_not_directly_after_start", loc.skip_calls_not_after_start);
     ctx.add("stream_reads", loc.stream_reads);
     ctx.add("syntax_errors_then_eof", loc.syntax_then_eof);
     ctx.add("illformed_errors_continued", loc.illformed_continued);
